@@ -474,30 +474,36 @@ FANCY = ("list", "array", "bool", "dalist", "dabool")
 
 
 def _apind_class(inp, x, got):
-    """Input class of an N-d index for the known-finding signatures (None when the class is not a known one)."""
+    """Input class of an N-d index for the known-finding signatures (None when the class is not a known one).
+
+    The only remaining class is `int+fancy-split`: NumPy counts integers as advanced indices, so when a slice or a
+    np.newaxis separates an integer from the array index the broadcast dimension moves to the front; dask treats
+    integers as basic indices (the array axis keeps its position). The class applies only when the computed result
+    is exactly that documented alternative (every entry that is not an integer keeps one axis, in index order)."""
     import numpy as np
     kinds = [k for k, _ in inp["index"]]
     fancy = any(k in FANCY for k in kinds)
-    if "none" in kinds and fancy:
-        return "newaxis+dask-array" if any(k in ("dalist", "dabool") for k in kinds) else "newaxis+fancy"
     if "int" in kinds and fancy and got is not None:
-        # NumPy counts integers as advanced indices: when a slice separates them from the array index the
-        # broadcast dimension moves to the front; dask treats integers as basic indices (keeps the position).
         shape = x.shape
-        full, nell = [], len(shape) - sum(1 for k in kinds if k != "ellipsis")
+        nell = len(shape) - sum(1 for k in kinds if k not in ("ellipsis", "none"))
+        full = []
         for k, v in inp["index"]:
             full += [("slice", [None, None, None])] * nell if k == "ellipsis" else [(k, v)]
-        full += [("slice", [None, None, None])] * (len(shape) - len(full))
-        idx2, squeeze = [], []
-        for ax, ((k, v), n) in enumerate(zip(full, shape)):
+        full += [("slice", [None, None, None])] * (len(shape) - sum(1 for k, _ in full if k != "none"))
+        idx2, squeeze, expand, ax = [], [], [], 0
+        for k, v in full:
+            if k == "none":
+                expand.append(None)
+                continue
+            n = shape[ax]
             if k == "int":
                 idx2.append(slice(v % n, v % n + 1))
                 squeeze.append(ax)
-            elif k == "slice":
-                idx2.append(slice(*v))
             else:
-                idx2.append(np.array(v, dtype=bool if k in ("bool", "dabool") else int))
-        alt = np.squeeze(x[tuple(idx2)], axis=tuple(squeeze))
+                idx2.append(slice(*v) if k == "slice" else np.array(v, dtype=bool if k in ("bool", "dabool") else int))
+                expand.append(slice(None))
+            ax += 1
+        alt = np.squeeze(x[tuple(idx2)], axis=tuple(squeeze))[tuple(expand)]
         if alt.shape == got.shape and (alt == got).all():
             return "int+fancy-split"
     return None
@@ -575,6 +581,10 @@ def case_apind(ctx, inp):
         ctx.branch("nd-basic-only")
     for k in set(kinds):
         ctx.branch("nd-" + k)
+    if "none" in kinds:
+        for k in set(kinds):
+            if k in FANCY:
+                ctx.branch("nd-newaxis+" + k)
     if any(k == "slice" and (v[2] or 1) < 0 for k, v in inp["index"]):
         ctx.branch("nd-negstep")
 
@@ -851,9 +861,6 @@ def _rand_nd_index(rng, shape, fancy=True):
         spec.append(("ellipsis", None))
     if rng.random() < 0.1:
         spec.append(("none", None))
-    if used_fancy and rng.random() < 0.75:
-        # np.newaxis together with an array index is a known-finding class: keep only a quarter of those
-        spec = [e for e in spec if e[0] != "none"]
     return spec
 
 
@@ -1024,6 +1031,17 @@ def generate(ctx):
     for _ in range(ctx.n(140, 2500)):
         shape, chunks = _rand_nd(rng)
         yield "apind", {"shape": shape, "chunks": chunks, "index": _rand_nd_index(rng, shape)}
+    # (4b) np.newaxis next to an array index (list / NumPy / dask, int / bool): at least one None and one array index
+    made = 0
+    while made < ctx.n(110, 1800):
+        shape, chunks = _rand_nd(rng, zero=0.05)
+        spec = _rand_nd_index(rng, shape)
+        if not any(k in FANCY for k, _ in spec):
+            continue
+        for _ in range(rng.choice([1, 1, 2])):
+            spec.insert(rng.randint(0, len(spec)), ("none", None))
+        made += 1
+        yield "apind", {"shape": shape, "chunks": chunks, "index": spec}
     for _ in range(ctx.n(70, 1200)):
         nd = rng.randint(1, 3)
         shape = [rng.randint(1, 5) for _ in range(nd)]
